@@ -30,6 +30,8 @@ def shards(tier, seed):
     for i in range(4):
         out.append({"name": f"public-{i}", "kind": "public", "i": i, "n": 4, "seed": seed, "tier": tier})
     out.append({"name": "fallback-126720", "kind": "fallback", "seed": seed, "tier": tier})
+    for fmt in FORMATS:
+        out.append({"name": f"multistream-{fmt}", "kind": "multistream", "fmt": fmt, "seed": seed, "tier": tier})
     return out
 
 
@@ -294,7 +296,63 @@ def run_fallback(spec, acc):
             delattr(encoder_mod, name)
 
 
+def run_multistream(spec, acc):
+    """One encoder, one decoder, several (PGN, source) streams: the encoder's counter is shared by all streams,
+    so a stream sees the same counter again when exactly 7 (15, ...) other fast messages were sent in between."""
+    rng = gen.rng_for(spec["seed"], ID, spec["name"])
+    fmt = spec["fmt"]
+    quick = spec["tier"] == "quick"
+    box, cleanup = install_stub()
+    try:
+        patterns = []
+        for gap in (7, 15, 6, 8, 1):
+            patterns.append(["A"] + ["B"] * gap + ["A"] + ["C"] * gap + ["A", "B"])
+        patterns.append(["A", "B", "C"] * 12)
+        for _ in range(6 if quick else 80):
+            patterns.append([rng.choice("ABCD") for _ in range(rng.randint(10, 60))])
+        srcs = {"A": 11, "B": 12, "C": 13, "D": 14}
+        for pi, pat in enumerate(patterns):
+            enc, dec = NMEA2000Encoder(), NMEA2000Decoder()
+            prev_seq = None
+            for warm in range(pi % 8):          # start the shared counter at every state
+                box["payload"] = b"\x01\x02\x03"
+                encode_frames(enc, fmt, NMEA2000Message(PGN=STUB_PGN, id="verifStub", priority=1, source=99, destination=255))
+            for k, sname in enumerate(pat):
+                n = rng.choice([0, 1, 6, 7, 8, 13, 14, 20, 50, 223])
+                payload = bytes(rng.randrange(256) for _ in range(max(n - 1, 0))) + (bytes([rng.randrange(1, 256)]) if n else b"")
+                box["payload"] = payload
+                msg = NMEA2000Message(PGN=STUB_PGN, id="verifStub", priority=3, source=srcs[sname], destination=255)
+                frames = encode_frames(enc, fmt, msg)
+                ctx = f"multistream {fmt} pattern#{pi} msg#{k} stream {sname} len={n}"
+                seq = check_structure(frames, payload, prev_seq if pi >= len(patterns) else None, acc, ctx)
+                acc.case((fmt, "ms", pi, k, payload))
+                w = {"ctx": ctx, "pattern": "".join(pat)[:80], "frames": [d.hex() for _, d, _ in frames][:6], "payload_hex": payload.hex()[:80]}
+                for j, (ident, data, raw) in enumerate(frames):
+                    try:
+                        r = feed(dec, fmt, ident, data, raw)
+                    except Exception as e:  # noqa: BLE001
+                        acc.violation("decode-raised-on-own-frames", f"{ctx} frame {j}: {type(e).__name__}: {e}", w)
+                        break
+                    acc.count("decoder_returns_checked")
+                    last = j == len(frames) - 1
+                    if not last and r is not None:
+                        acc.violation("message-before-last-frame", f"{ctx}: returned at frame {j}/{len(frames)}", w)
+                    if last:
+                        if r is None:
+                            acc.violation("no-message-at-last-frame", f"{ctx}: nothing returned at the last frame (stream seen before: {sname in pat[:k]})", w)
+                        elif r.fields[0].value != int.from_bytes(payload, "little") or r.source != srcs[sname]:
+                            acc.violation("reassembled-payload-differs", f"{ctx}: payload came back different", w)
+                        else:
+                            acc.count("messages_reassembled_equal")
+                            acc.count("multistream_messages_equal")
+            acc.cover("multistream_patterns", "".join(pat)[:24])
+    finally:
+        cleanup()
+
+
 def run_shard(spec, acc):
+    if spec["kind"] == "multistream":
+        return run_multistream(spec, acc)
     if spec["kind"] == "stub":
         try:
             run_stub(spec, acc)
